@@ -4,7 +4,7 @@ import json, pathlib, shutil, sys
 
 src, ident, prop, first, change, needs = sys.argv[1:7]
 strengthening = sys.argv[7] if len(sys.argv) > 7 else ''
-round_no = {'a': 1, 'b': 2, 'c': 3, 'd': 4, 'e': 5, 'f': 6, 'g': 7, 'h': 8, 'i': 9, 'j': 10, 'k': 11, 'l': 12}[ident.split('-')[1][0]]
+round_no = {'a': 1, 'b': 2, 'c': 3, 'd': 4, 'e': 5, 'f': 6, 'g': 7, 'h': 8, 'i': 9, 'j': 10, 'k': 11, 'l': 12, 'm': 13, 'n': 14}[ident.split('-')[1][0]]
 dest = pathlib.Path('/verif/seeded') / ident
 dest.mkdir(parents=True, exist_ok=True)
 for name in ('patch.diff', 'demo.py', 'notes.md'):
